@@ -762,6 +762,13 @@ inline void Transport::sendAsync(SessionId sid, iora::core::BufferView data,
 inline ConnectResult Transport::connectSync(const std::string &host, std::uint16_t port,
                                             TlsMode tls, std::chrono::milliseconds timeout)
 {
+  return connectSync(host, port, tls, timeout, std::string());
+}
+
+inline ConnectResult Transport::connectSync(const std::string &host, std::uint16_t port,
+                                            TlsMode tls, std::chrono::milliseconds timeout,
+                                            const std::string &tlsServerName)
+{
   // Guard on thread-identity ALONE (HR-5/DQ-4): getIoThreadId()==_loop.get_id() is
   // the default std::thread::id pre-start/post-detach, so it matches only the real
   // running I/O thread. Dropping the isRunning() conjunct closes the window where
@@ -776,7 +783,7 @@ inline ConnectResult Transport::connectSync(const std::string &host, std::uint16
   // For UDP, connect is immediate — no handshake
   if (_impl->config.protocol == Protocol::UDP)
   {
-    return _impl->engine->connect(host, port, tls);
+    return _impl->engine->connect(host, port, tls, tlsServerName);
   }
 
   // Acquire syncMutex BEFORE calling engine->connect(). This ensures the
@@ -803,7 +810,7 @@ inline ConnectResult Transport::connectSync(const std::string &host, std::uint16
       TransportErrorInfo{TransportError::ShuttingDown, "transport shutting down"});
   }
 
-  auto result = _impl->engine->connect(host, port, tls);
+  auto result = _impl->engine->connect(host, port, tls, tlsServerName);
   if (result.isErr())
   {
     // Defensive: the current TcpEngine::connect() always returns ok(sid) and
